@@ -36,7 +36,7 @@ def _bootstrap():
     return repo, verif
 
 
-REACH_CASES = 12
+REACH_CASES = 24
 
 
 def _merge_reach(total, part):
@@ -76,6 +76,7 @@ def run_worker(args):
     from pbmon import inject
     reach_total = {}
     verif_dir = os.path.dirname(os.path.dirname(os.path.abspath(__file__)))
+    repo = os.environ.get("VERIF_REPO", "/repo")
     try:
         teardown = mod.setup(ctx) if hasattr(mod, "setup") else None
         wls = mod.workloads(ctx)
@@ -88,14 +89,18 @@ def run_worker(args):
                 continue
             else:
                 idxs = range(si, ncases, sn)
-            reach_left = REACH_CASES if (si == 0 and replay is None) else 0
+            if si == 0 and replay is None and not args.only and name != "R":
+                # reach pass (worker 0 only): REACH_CASES case indices spread evenly over this workload's case space are run once more
+                # with line monitoring on, whatever worker owns them; their monitor events count, their evaluations do not
+                inject.tool().start_reach()
+                for ridx in sorted({int(round(k * (ncases - 1) / max(1, REACH_CASES - 1))) for k in range(min(ncases, REACH_CASES))}):
+                    ctx.set_case(name, ridx)
+                    try:
+                        func(ctx, ridx, ctx.rng(name, ridx))
+                    except Exception:
+                        pass
+                _merge_reach(reach_total, inject.tool().stop_reach())
             for idx in idxs:
-                if reach_left > 0:
-                    reach_left -= 1
-                    if reach_left == REACH_CASES - 1:
-                        inject.tool().start_reach()
-                    if reach_left == 0:
-                        _merge_reach(reach_total, inject.tool().stop_reach())
                 if ctx.timed_out():
                     ctx.count(f"cases_skipped_out_of_time[{name}]", len(range(idx, ncases, sn)))
                     break
@@ -116,14 +121,12 @@ def run_worker(args):
                         break
                 ctx.evaluations += 1
                 ctx.count(f"cases[{name}]")
-            if inject.tool().reach is not None:
-                _merge_reach(reach_total, inject.tool().stop_reach())
         if si == 0 and replay is None and not args.only:
             anchors = _anchors(args.prop, verif_dir)
-            hits = inject.anchor_hits(reach_total, anchors)
-            ctx.note("anchor_reach", {"note": f"statement-start lines of pulsarbat executed during the first {REACH_CASES} cases of each workload "
-                                              "(worker 0), summed over the line ranges named in the property's anchors "
-                                              "(line numbers refer to the pinned source; 'fix:' commits shifted some by a few lines)",
+            hits = inject.anchor_hits(reach_total, anchors, repo)
+            ctx.note("anchor_reach", {"note": f"statement-start lines of pulsarbat executed during a reach pass over {REACH_CASES} cases spread evenly over the case space "
+                                              "of each workload (worker 0), summed over the line ranges named in the property's anchors "
+                                              "(anchor line numbers refer to the pinned source and are mapped onto the current tree with difflib)",
                                       "ranges": hits,
                                       "files": {f: len(v) for f, v in reach_total.items()}})
             if anchors and sum(h["hits"] for h in hits.values()) == 0:
